@@ -73,7 +73,18 @@ func GetVarSize(value any) int {
 		valueSize := 0
 
 		if valueLength != 0 {
-			switch v.Index(0).Interface().(type) {
+			elem := v.Index(0)
+			_, isSer := elem.Interface().(Serializable)
+			if !isSer && elem.CanAddr() {
+				// Elements that are Serializable by pointer only (slices of structures).
+				if _, ok := elem.Addr().Interface().(Serializable); ok {
+					for i := range valueLength {
+						valueSize += GetVarSize(v.Index(i).Addr().Interface())
+					}
+					return getVarIntSize(valueLength) + valueSize
+				}
+			}
+			switch elem.Interface().(type) {
 			case Serializable:
 				for i := range valueLength {
 					valueSize += GetVarSize(v.Index(i).Interface())
